@@ -60,9 +60,9 @@ func VerifH_C08_BlockstoreRaces() {
 	opB := vChoose("opB", 7)
 	vAssume(opA <= opB)
 	if vTier() == 1 {
-		// thorough: three concurrent calls
-		opC := vChoose("opC", 7)
-		vAssume(opB <= opC)
+		// thorough: a third concurrent call, one of the two mutating operations (Put, or the
+		// Finalize/Close that ends the session)
+		opC := []int{0, 6}[vChoose("opC", 2)]
 		vConcurrently(
 			func() { vRWOp(rw, opA, e1, first.c) },
 			func() { vRWOp(rw, opB, e2, first.c) },
